@@ -1323,8 +1323,17 @@ class Engine:
       f = uf('sorted_%s' % sv._mangle(v.t), [sv.zsort(v.t)], sv.zsort(v.t), v.t)
       r = V(v.t, f(nv.z))
       self.assume(st, sv.l_len(r) == sv.l_len(nv))
+      # every element of the sorted list is an element of the argument (position perm(i)) and vice versa
+      pi = uf('perm_%s' % sv._mangle(v.t), [sv.zsort(v.t), z3.IntSort()], z3.IntSort())
+      qi = uf('perminv_%s' % sv._mangle(v.t), [sv.zsort(v.t), z3.IntSort()], z3.IntSort())
+      i_ = z3.Int(sv.fresh_name('pi'))
+      ri, vi = z3.Select(sv.l_arr(r), i_), z3.Select(sv.l_arr(v), i_)
+      self.assume(st, z3.ForAll([i_], z3.Implies(z3.And(0 <= i_, i_ < sv.l_len(r)), z3.And(
+          0 <= pi(nv.z, i_), pi(nv.z, i_) < sv.l_len(v), ri == z3.Select(sv.l_arr(v), pi(nv.z, i_)))), patterns=[ri]))
+      self.assume(st, z3.ForAll([i_], z3.Implies(z3.And(0 <= i_, i_ < sv.l_len(v)), z3.And(
+          0 <= qi(nv.z, i_), qi(nv.z, i_) < sv.l_len(r), vi == z3.Select(sv.l_arr(r), qi(nv.z, i_)))), patterns=[vi]))
       self.u.setdefault('_assumed', set()).add(
-          'sorted(list): an uninterpreted function of the list value with the same length; TypeError not modelled')
+          'sorted(list): an uninterpreted function of the list value with the same length and the same elements; TypeError not modelled')
       return r
     raise Unsupported('sorted(%r)' % (v.t,))
 
@@ -1491,7 +1500,11 @@ class Engine:
     skip = set(cu.get('smt_skip_ensures', [])) | set(cu.get('call_skip_ensures', []))
     # postconditions of a callee are assumed at the call site only; calls made *inside* those
     # postconditions are bare applications (no unbounded unfolding of mutually recursive contracts)
-    for i_, r in enumerate(cu.get('ensures', []) if getattr(self, 'depth', 0) < 1 else []):
+    # a pure callee applied inside a *specification* (invariant, postcondition) is a bare application: its contract
+    # is available as a quantified axiom of the unit if needed (an instance for a bound variable would be a
+    # free-variable formula of no use)
+    assume_post = getattr(self, 'depth', 0) < 1 and not (cu.get('pure') and self.spec)
+    for i_, r in enumerate(cu.get('ensures', []) if assume_post else []):
       if i_ in skip:
         continue
       self.assume(st, guard_all(self.guards, truthy(sub.ev(parse_expr(r), post_st))))
@@ -1630,6 +1643,11 @@ class Engine:
       new = sv.mk_list(tgt.t, sv.l_arr(tgt), sv.l_len(tgt) - 1)
     elif k == 'set' and name == 'add':
       new = V(tgt.t, z3.Store(tgt.z, coerce(args[0], tgt.t.args[0]).z, True))
+    elif k == 'set' and name in ('remove', 'discard') and len(args) == 1:
+      e_ = coerce(args[0], tgt.t.args[0])
+      if name == 'remove':
+        self.emit(st, 'safe-key', z3.Select(tgt.z, e_.z), c, 'set.remove of a member (KeyError otherwise)')
+      new = V(tgt.t, z3.Store(tgt.z, e_.z, False))
     else:
       raise Unsupported('mutator %s on %r' % (name, tgt.t))
     self.assign(c.func.value, new, st)
